@@ -136,6 +136,9 @@ def g_modifiers(prop, bound, q):
             for ret in (0, 1):
                 T.append(dict(mode='annotate', shape=sh, npos=n, nkwo=ret))
     T.append(dict(mode='desc_get', shape=(0, 1, 0, 0, 0)))
+    for sh in harness.shapes(1, 2, 1, 3):
+        for a, b in ((1, 0), (0, 1), (1, 1)):
+            T.append(dict(mode='stack', shape=sh, npos=a, nkwo=b))
     return dict(name='modifiers', bound=bound_text(bound) + '; <=2 names selected as positional-only and <=2 as keyword-only (3 in total at most; the NAMES are symbolic: any parameter, each other, or none); '
                 'calls: 0..positionals+1 positional arguments, <=%d keywords with symbolic names' % (1 if q else 2),
                 exhaustive=True, tasks=[dict(module='contracts.modifiers', want=[prop], args=a, cross=(a['mode'] in ('prepare', 'call'))) for a in T])
@@ -167,6 +170,7 @@ def g_wrappers(prop, q):
         for d in (1, 2, 3):
             T.append(dict(mode='wrappers', cls=c, depth=d))
     T.append(dict(mode='forger', cls='_Wrapped'))
+    T.append(dict(mode='forger_wrapper'))
     for nf in (1, 2, 3):
         for na in (0, 1):
             T.append(dict(mode='combination', nfuncs=nf, nargs=na, nkeys=1))
@@ -237,7 +241,7 @@ def plan(prop, tier, seed=0):
                    tasks=[dict(module='contracts.support', want=[prop], args=dict(mode='roundtrip', shape=(i, 16)), cross=False) for i in range(16)])]
     if prop == 'C14':
         G += [g_dropin(prop, B1), g_partial(prop, B1 if q else (1, 2, 1, 3), 0, 'plain')]
-    if prop == 'C13':
+    if prop in ('C13', 'C04'):
         G += [g_wrappers(prop, q)]
     if prop in ('C05', 'C06', 'C07'):
         G += [g_discovery(prop, q)]
